@@ -53,6 +53,8 @@ Proof.
   - unfold mux_clear_all. repeat case_match; done.
   - unfold enum_clone. repeat case_match; done.
   - unfold eval_clone, lift3. destruct (evals (base (l3 s)) !! v) as [V|]; [|done]. cbn. unfold new_enum_value, alloc, ok. cbn. done.
+  - unfold msg_resize. repeat case_match; done.
+  - unfold bus_set_type. repeat case_match; done.
 Qed.
 
 (* ---- a name in use is refused ---------------------------------------------------------------------- *)
